@@ -110,7 +110,39 @@ CheckClean(e, line) ==
   /\ (EnvelopeOK(e.dropped, e.len, e.ages, e.minSize, e.maxSize, e.minAge, e.maxAge) \/ Bad(line, "retention:envelope", ref, e.dropped))
   /\ (e.dropped = ref \/ Bad(line, "retention:count", ref, e.dropped))
 
+(* one TTL pass on the real engine (Transaction.Expire + commit, or the background loop) *)
+EvOfNs(evs, n) == FilterSeq(LAMBDA x : x.ns = n, evs)
+CheckExpire(e, line) ==
+  LET pre == ObsDb(e.pre)
+      post == ObsDb(e.post)
+      exp == ExpireDb(pre, e.now)
+  IN /\ (exp = post \/ Bad(line, "expire:state", exp, post))
+     /\ (\A n \in DOMAIN pre :
+            LET want == ExpireEvents(pre, n, e.now)  got == EvOfNs(e.ev, n) IN
+            (Len(want) = Len(got) /\ \A i \in 1..Len(want) : EvSame(want[i], got[i])) \/ Bad(line, "expire:events", want, got))
+     /\ ((\A i \in 1..Len(e.ev) : e.ev[i].op = "delete" /\ e.ev[i].ns \in DOMAIN pre) \/ Bad(line, "expire:foreign-event", "", e.ev))
+     /\ ((exp = pre) => ((e.pre = e.post /\ e.ev = <<>> /\ ~e.dirty) \/ Bad(line, "expire:noop-pass-changed-something", e.pre, e.post)))
+     /\ \A n \in DOMAIN e.post : \A i \in 1..Len(e.post[n].idx) :
+           IndexListingOK(e.post[n].idx[i].list, e.post[n].docs, DefOf(e.post[n].idx[i]))
+           \/ Bad(line, "expire:index-content", e.post[n].idx[i].name, e.post[n].idx[i].list)
+     /\ (TsIncreasing(e.ts) \/ Bad(line, "expire:event-ids", e.ts, ""))
+
+(* closing a file-backed database and opening it again (C06): identity on the abstract state, on the opaque *)
+(* canonical tokens of every document (BSON bytes) and on the change log                                    *)
+CheckReload(e, line) ==
+  IF e.err THEN Bad(line, "reload:load-failed", "loads", e.msg)
+  ELSE
+  /\ (ObsDb(e.pre) = ObsDb(e.post) \/ Bad(line, "reload:state", ObsDb(e.pre), ObsDb(e.post)))
+  /\ (e.pretok = e.posttok \/ Bad(line, "reload:tokens", "", ""))
+  /\ (e.preev = e.postev \/ Bad(line, "reload:change-log", e.preev, e.postev))
+  /\ \A n \in DOMAIN e.post : \A i \in 1..Len(e.post[n].idx) :
+        IndexListingOK(e.post[n].idx[i].list, e.post[n].docs, DefOf(e.post[n].idx[i]))
+        \/ Bad(line, "reload:index-content", e.post[n].idx[i].name, e.post[n].idx[i].list)
+  /\ \A n \in DOMAIN e.post : UniqueOK(ObsColl(e.post[n])) \/ Bad(line, "reload:unique", n, "")
+
 Checked == l # 0 => CASE Trace[l].fn = "call" -> CheckCall(Trace[l], l)
                       [] Trace[l].fn = "clean" -> CheckClean(Trace[l], l)
+                      [] Trace[l].fn = "expire" -> CheckExpire(Trace[l], l)
+                      [] Trace[l].fn = "reload" -> CheckReload(Trace[l], l)
                       [] OTHER -> TRUE
 =============================================================================
